@@ -1,6 +1,6 @@
 (* Properties_C04.v — C04: a malformed request gets one 400 and is never routed, however it arrives. *)
 From Coq Require Import String List ZArith.
-From QH Require Import Bytes Parser HeaderMap SocketM SockProofs BytesProofs C02Proofs C04Proofs.
+From QH Require Import Bytes Parser HeaderMap SocketM SockProofs BytesProofs C02Proofs C04Proofs Interleave.
 Import ListNotations.
 Local Open Scope Z_scope.
 
@@ -53,3 +53,12 @@ Example C04_nonvacuous :
   rejected {| version := B "1.0.1"; url_table := [] |} (B "GET / HTTP/1.2") /\
   fresh init_sock.
 Proof. split; [left; reflexivity|split; [left; reflexivity|constructor; reflexivity]]. Qed.
+
+(* a malformed request on one connection while others are being served, their segments interleaved in any order: the
+   rejection (its single 400, nothing routed) stays on that connection, and every other connection is served as it
+   would be alone *)
+Theorem C04_connections_independent : forall e p sched ss i s,
+  nth_error ss i = Some s ->
+  proj ev i (irun sock op ev (step e p) ss sched) = run sock op ev (step e p) s (ops_of op i sched).
+Proof. intros e p. exact (interleaving_independent sock op ev (step e p)). Qed.
+Print Assumptions C04_connections_independent.
